@@ -222,6 +222,14 @@ func (w *world) classes(v *harness.Verdict, chain, filter string) {
 	default:
 		v.Class("leaf:cert")
 	}
+	if w.metas[w.chain[0].c].node < 0 && w.chain[0].c.Label == "leaf" {
+		if w.c.Leaf.NBOff > 0 {
+			v.Class("leaf:inverted-validity")
+		}
+		if w.c.Leaf.Bulk > 0 {
+			v.Class(fmt.Sprintf("leaf:bulk-%dk", w.c.Leaf.Bulk/1000))
+		}
+	}
 	o := w.c.Opt
 	if o.Start != nil {
 		v.Class(fmt.Sprintf("opt:start%+d", clampOff(*o.Start)))
@@ -267,6 +275,22 @@ func (w *world) classes(v *harness.Verdict, chain, filter string) {
 				used["ok:old-self-signed-in-chain"] = true
 			}
 			used["ok:key:"+e.c.Key.Kind] = true
+		}
+		for i := range w.chain {
+			for j := i + 1; j < len(w.chain); j++ {
+				a, b := w.chain[i].c, w.chain[j].c
+				if a.Tmpl.Serial.Cmp(b.Tmpl.Serial) == 0 && bytes.Equal(a.IssuerDER(), b.IssuerDER()) {
+					used["ok:same-issuer-and-serial-twice"] = true
+				} else if a.Tmpl.Serial.Cmp(b.Tmpl.Serial) == 0 {
+					used["ok:same-serial-twice"] = true
+				}
+			}
+			if i >= 1 && !w.chain[i].c.Tmpl.NotAfter.After(pki.Epoch) {
+				used["ok:ignored:issuer-expired"] = true
+			}
+			if i >= 1 && w.chain[i].c.Tmpl.NotBefore.After(pki.Epoch.AddDate(25, 0, 0)) {
+				used["ok:ignored:issuer-not-yet-valid"] = true
+			}
 		}
 		for _, f := range w.ignoredFeatures() {
 			used["ok:"+f] = true
